@@ -308,7 +308,8 @@ impl Distribution<u64> for Hypergeometric {
                 let mut u = rng.random::<f64>();
 
                 // the paper erroneously uses `until n < p`, which doesn't make any sense
-                while u > p && x < k as i64 {
+                // the largest value of the (reduced) support is min(n1, k)
+                while u > p && x < u64::min(n1, k) as i64 {
                     u -= p;
                     p *= ((n1 as i64 - x) * (k as i64 - x)) as f64;
                     p /= ((x + 1) * (n2 as i64 - k as i64 + 1 + x)) as f64;
